@@ -16,12 +16,16 @@ from . import analysis
 rule("C04.d", "split re-basing: the index shift accumulates len(c) of the interval problems in the loop that collects problems "
               "and mappings; c and x are concatenated over the same list in order", floor=4, props=["C04", "C14", "C01", "C07"])
 rule("C14.c", "after the interval loop the full grid is re-set on the portfolio and on every asset, on every path to the return", floor=2)
+rule("C14.h", "a grid given to a wrapper (scaled / structured / linked asset) reaches what it wraps: the wrapper's set_timegrid passes it on, "
+              "so that restoring the full grid after a split optimisation also restores the wrapped assets", floor=2, props=["C14", "C10"])
+rule("C15.k", "split set-up with a fixed window: each interval is given the part of the previous solution (and of an index mask) that "
+              "belongs to it, not the caller's full-length data unchanged (the interval set-up reads x[0:n_vars])", floor=1)
 rule("C14.f", "interval boundaries are consecutive pairs of one sequence extended to start at grid start and end at grid end", floor=3)
 rule("C18.c", "time steps and nodal records of an interval are re-based through the same array of original steps; records and "
               "duals are concatenated in interval order", floor=3, props=["C18", "C14"])
 
 
-@analysis("split", ["C04.d", "C14.c", "C14.f", "C18.c"])
+@analysis("split", ["C04.d", "C14.c", "C14.f", "C18.c", "C14.h", "C15.k"])
 def run(ctx):
     p = ctx.p
     fn = p.cls("Portfolio").methods.get("setup_split_optim_problem")
@@ -179,3 +183,43 @@ def run(ctx):
         a0 = s.value.args[0]
         ok = isinstance(a0, (ast.Tuple, ast.List)) and len(a0.elts) == 2 and au.U(a0.elts[0]) == au.U(s.targets[0])
         ctx.ob("C18.c", opt, au.short(s, 70), ok, "interval duals must be appended behind the accumulated duals (interval order)", node=s)
+
+    # ================================================================= C14.h wrappers pass the grid on
+    n_w = 0
+    for ci in sorted(p.asset_classes(), key=lambda c: c.name):
+        wrapped = set()
+        for m_ in ci.methods.values():
+            for c in p.calls_in(m_):
+                if au.method_name(c) == "setup_optim_problem" and isinstance(c.func, ast.Attribute) and isinstance(c.func.value, ast.Attribute) \
+                        and au.base_name(c.func.value) == "self" and au.path(c.func.value).count(".") == 1:
+                    wrapped.add(c.func.value.attr)
+        if not wrapped:
+            continue
+        st_m = p.resolve_method(ci, "set_timegrid")
+        for w_attr in sorted(wrapped):
+            n_w += 1
+            passes = st_m is not None and any(isinstance(c, ast.Call) and au.method_name(c) == "set_timegrid" and ("self.%s" % w_attr) in au.U(c.func)
+                                              for c in au.walk_local(st_m.node)) or \
+                (st_m is not None and any(isinstance(l, ast.For) and ("self.%s" % w_attr) in au.U(l.iter) and
+                                          any(isinstance(c, ast.Call) and au.method_name(c) == "set_timegrid" for c in au.walk_local(l)) for l in au.walk_stmts(st_m.body)))
+            ctx.ob("C14.h", ci.name, "set_timegrid reaches self.%s" % w_attr, bool(passes),
+                   "%s wraps self.%s (it calls its set-up) but %s only stores the grid on the wrapper: after a split optimisation the portfolio "
+                   "gives the full grid back to its own assets, the wrapped ones keep the grid of the last interval - a later set-up of the "
+                   "wrapper without grid argument builds the inner problem on that interval (ScaledAsset: ValueError 'Length of price array "
+                   "must be equal to length of time grid'; 72 steps outside, 24 inside)" % (
+                       ci.name, w_attr, (st_m.qualname if st_m is not None else "set_timegrid")), node=ci.node)
+    ctx.require(n_w >= 2, "fewer than 2 wrapper classes found")
+
+    # ================================================================= C15.k the window handed to an interval
+    calls = [c for s0 in au.walk_stmts(main.body) for c in au.walk_own(s0) if isinstance(c, ast.Call) and au.method_name(c) == "setup_optim_problem"]
+    for c in calls:
+        a = au.kwarg(c, "fix_time_window")
+        if a is None:
+            continue
+        bare = isinstance(a, ast.Name) and fn.param(a.id) is not None and \
+            all(d.kind == "param" for d in ctx.flow(fn).defs(a.id, ctx.p.enclosing_stmt(c)))
+        ctx.ob("C15.k", fn, "window passed to the interval set-up", not bare,
+               "every interval is given the caller's fix_time_window unchanged; the interval set-up pins its variables to x[0:n_vars], i.e. "
+               "every interval after the first to the values of the *first* interval's variables, and an index mask over the full grid "
+               "does not fit the interval's steps: with a window reaching past the first interval the fixed part of the previous "
+               "solution is not reproduced (deviation 1.0 in the demo of D47)", node=c, key="window passed to the interval set-up")
